@@ -1,4 +1,13 @@
-"""C17 - local order parameters: S2 pair entropy, q_tetrahedral, nematic tensor, gyration descriptors (E1)."""
+"""C17 - local order parameters: S2 pair entropy, q_tetrahedral, nematic tensor, gyration descriptors (E1).
+
+Round 4 (docs/STRENGTHEN_TASK2.md; helpers in mc/ref/c17y.py):
+  C17.corr        S2.spatial_corr / time_corr, NematicOrder.spatial_corr / time_corr vs the C13 / C14 reference models (coverage gap)
+  C17.firstframe  L2 first frame of another class (orthogonal then tilted cells, dilute then clustered, no neighbours then ragged lists)
+  C17.unwrapped   L7 particles displaced by whole cell vectors
+  C17.forms       L4 exact axis directors, particle at the origin / on a face; L5 storage types and orders; L1 Nmax / snapshots_position where irrelevant
+  C17.sequence    L6 call words (objects queried repeatedly, in-place edits, two objects, same output prefix / file names) in forked children
+  C17.dilation    L9 absolute scale (2^-33, 2^27)
+"""
 import itertools
 import math
 import os
@@ -10,6 +19,8 @@ from mc.harness import Result, Sub
 from mc.ref.base import frac_tie_margin, mk_snap, mk_snaps, write_neighbor_file
 from mc.ref import cgorder as G
 from mc.ref import c17x as X
+from mc.ref import c17y as Y
+from mc.ref import c03x as X3
 
 ASSUMPTIONS = [
     "S2: the sum over j runs over the particles with minimum-image r_ij < r_m, r_m = centre of the last bin (bins r_k = (k+1/2) rdelta); "
@@ -22,6 +33,20 @@ ASSUMPTIONS = [
     "gyration: descriptors compared in value; a complex-typed return with zero imaginary part is accepted (numpy >= 2.x linalg.eig); "
     "the fractal dimension log N / log Rg is not compared when |log10 Rg| < 1e-7 (undefined at Rg = 1)",
     "float tolerance rtol 1e-9 / atol 1e-11 (1e-12 for the perfect-tetrahedron clause)",
+    "round 4 - C17.corr: property C17 does not mention the correlation methods; what is compared is what the class docstrings say: S2.spatial_corr = frame mean of "
+    "conditional_gr (C13 model: weighted pair histogram, columns r, gr, gA, gA_norm; bins of width rdelta up to min(boxlength)/2) of the per-particle S2 values, each frame "
+    "divided by ITS OWN mean when mean_norm; NematicOrder.spatial_corr = the same with the trace of the tensor product as pair weight (columns r, gr, gA); time_corr = "
+    "time_correlation (C14 model: all origins iff the timestep differences are all equal, origin 0 otherwise) of the S2 values / Q tensors, normalised to C(0) = 1; the reference "
+    "S2 values and Q tensors come from the reference models, not from the library; gA_norm is compared only when the relative variance of S2 exceeds 1e-6; cases with a pair "
+    "within 1e-9 of a bin edge are screened; dt = 0 is a legal time step",
+    "round 4 - directors are UNIT vectors (property: 'all unit-vector fields'): a zero director is outside the domain; exact axis directors (+-1,0),(0,+-1) are inside and may be "
+    "stored as float32 or as integers; float32 storage only has to give float32 accuracy (2e-6); Nmax is irrelevant without a neighbour file and snapshots_position is "
+    "documented as 'only required for spatial correlation': tensor() must not depend on either; S2 / q_tetrahedral: ppp is an ndarray (the code reads ppp.shape) of any integer dtype",
+    "round 4 - L7: positions that differ by whole cell vectors along periodic axes describe the same configuration (unfolded xu yu zu dump columns)",
+    "round 4 - C17.sequence: every call returns bit for bit what the same call returns when made first in a fresh process, whatever ran before, whatever objects are alive and "
+    "whatever files earlier calls left under the same names; an S2 object whose snapshots' position arrays were edited in place answers for the edited positions",
+    "round 4 - L9 (C17.dilation): S2 is scale-free when positions, cell, rdelta and the widths are multiplied by a common factor, q_tetrahedral when positions and cell are; "
+    "gyration descriptors scale by the documented powers of the length unit; comparisons at 2^-33 / 2^27 are relative to the undilated library result",
     "scale slice: S2, q_tetrahedral and the nematic tensor of 63..257 particles are compared with vectorised numpy references (mc/ref/c17x.py, same formulas as "
     "mc/ref/cgorder.py on full pair tables); placements with a periodic fractional pair component within 1e-9 of a half-cell tie, a pair distance within 1e-9 of r_m, "
     "or a 4th/5th-nearest gap below 1e-9 are replaced by the next hash table; S2 and q_tetrahedral assert a constant boxlength, so only the tilt factors change per frame; "
@@ -43,11 +68,22 @@ def s2_cell(d, cell):
 
 
 def s2_frames(seed, d, N, spread, tag, F, H):
+    """generic fractional placements, one hash table per frame; `spread` and `H` may be one value or one per frame"""
     out = []
+    Hf = list(H) if np.ndim(H) == 3 else [H] * F
+    sp = list(spread) if np.ndim(spread) == 1 else [spread] * F
     for f in range(F):
         fr = np.array(A.generic_points(seed, N, d, tag=f"s2_{d}{N}{tag}f{f}_"))
-        out.append(((0.5 + spread * (fr - 0.5)) @ H))
+        out.append(((0.5 + sp[f] * (fr - 0.5)) @ Hf[f]))
     return out
+
+
+def s2_cells(case):
+    """the cell of every frame of an S2 case: `cell` (one class for all frames) or `cellseq` (a class per frame, mc/ref/c17y.CELLSEQ)"""
+    F = case["F"]
+    if case.get("cellseq"):
+        return Y.cells(S2_L[case["d"]], case["cellseq"], F)
+    return [s2_cell(case["d"], case["cell"])] * F
 
 
 def s2_types(N, K):
@@ -94,20 +130,23 @@ def run_s2(case):
 
     R = Result()
     d, N = case["d"], case["N"]
-    H = s2_cell(d, case["cell"])
-    frames = s2_frames(case["seed"], d, N, case["spread"], case["tag"], case["F"], H)
+    Hs = s2_cells(case)
+    frames = s2_frames(case["seed"], d, N, case["spread"], case["tag"], case["F"], np.array(Hs))
     ppp = np.array(case["ppp"])
     sigm = np.array(S2_SIG[case["sig"]])
     types = case["types"]
     rd, nd = case["rd"], case["nd"]
-    sig = {"d": d, "cell": case["cell"], "K": len(set(types)), "masked": bool((ppp == 0).any()), "multi_frame": case["F"] > 1,
+    sig = {"d": d, "cell": case.get("cellseq") or case["cell"], "K": len(set(types)), "masked": bool((ppp == 0).any()), "multi_frame": case["F"] > 1,
            "savegr": case["savegr"]}
+    if np.ndim(case["spread"]) == 1:
+        sig["density_class_changes"] = True
     refs, grs = [], []
     partial = False
     types_f = [list(types) if (f % 2 == 0 or not case.get("swap")) else list(types)[::-1] for f in range(len(frames))]
     sig["types_change"] = bool(case.get("swap"))
     for f_, p in enumerate(frames):
         types = types_f[f_]
+        H = Hs[f_]
         tm = min(frac_tie_margin(p - p[i], H, ppp) for i in range(N))
         s2, info = G.ref_s2(p, H, types, sigm, ppp, rd, nd)
         if tm < 1e-9 or info["margin"] < 1e-9 or min(info["nneigh"]) == 0 or not (info["gmin"] > 1e-290):
@@ -120,7 +159,12 @@ def run_s2(case):
     from PyMatterSim.reader.reader_utils import Snapshots
     from mc.ref.base import mk_snap
 
-    snaps = Snapshots(len(frames), [mk_snap(p.tolist(), H, types_f[f_], ts=100 * f_) for f_, p in enumerate(frames)])
+    lib_frames = frames
+    if case.get("unwrap"):
+        # L7: particles displaced by whole cell vectors along the periodic axes (frame 0 of a multi-frame input stays folded); the reference is the folded input
+        lib_frames = [p if (f_ == 0 and len(frames) > 1) else Y.unwrap(p, Hs[f_], ppp, phase=f_) for f_, p in enumerate(frames)]
+        sig["unwrapped"] = True
+    snaps = Snapshots(len(frames), [mk_snap(p.tolist(), Hs[f_], types_f[f_], ts=100 * f_) for f_, p in enumerate(lib_frames)])
     before = [s.positions.copy() for s in snaps.snapshots]
     out = S2(snaps, sigm, ppp, rd, nd).particle_s2(savegr=case["savegr"])
     if case["savegr"]:
@@ -289,23 +333,25 @@ def gen_formula(tier, seed):
 
 
 def formula_frames(case):
+    """-> (cell of frame 0, frames, cells per frame); `cellseq` gives a cell class per frame (same edge lengths, mc/ref/c17y.CELLSEQ)"""
     H = tetra_cell(case["cell"])
     if case["kind"] == "generic":
-        return H, [np.array(A.generic_points(case["seed"], case["N"], 3, tag=f"tq{case['N']}_{case['tag']}f{f}_")) @ H for f in range(case["F"])]
+        Hs = Y.cells(F_L, case["cellseq"], case["F"], T_TILT) if case.get("cellseq") else [H] * case["F"]
+        return Hs[0], [np.array(A.generic_points(case["seed"], case["N"], 3, tag=f"tq{case['N']}_{case['tag']}f{f}_")) @ Hs[f] for f in range(case["F"])], Hs
     pts = np.array(A.jl_points(case["seed"], 2, 3, F_L, tag="tq2"))
-    return H, [pts[case["subset"]]]
+    return H, [pts[case["subset"]]], [H]
 
 
 def run_formula(case):
     from PyMatterSim.static.geometric import q8_tetrahedral
 
     R = Result()
-    H, frames = formula_frames(case)
+    H, frames, Hs = formula_frames(case)
     ppp = np.array(case["ppp"])
     N = case["N"]
-    sig = {"kind": case["kind"], "cell": case["cell"], "N5": N == 5, "masked": bool((ppp == 0).any()), "multi_frame": case["F"] > 1}
+    sig = {"kind": case["kind"], "cell": case.get("cellseq") or case["cell"], "N5": N == 5, "masked": bool((ppp == 0).any()), "multi_frame": case["F"] > 1}
     refs = []
-    for p in frames:
+    for p, H in zip(frames, Hs):
         if min(frac_tie_margin(p - p[i], H, ppp) for i in range(N)) < 1e-9:
             return R.screen()
         q, near, margin = G.ref_tetra(p, H, ppp)
@@ -313,7 +359,11 @@ def run_formula(case):
             return R.screen()
         refs.append(q)
     refs = np.array(refs)
-    snaps = mk_snaps([p.tolist() for p in frames], H, [1] * N)
+    lib_frames = frames
+    if case.get("unwrap"):
+        lib_frames = [p if (f_ == 0 and len(frames) > 1) else Y.unwrap(p, Hs[f_], ppp, phase=f_) for f_, p in enumerate(frames)]
+        sig["unwrapped"] = True
+    snaps = mk_snaps([p.tolist() for p in lib_frames], np.array(Hs), [1] * N)
     before = [s.positions.copy() for s in snaps.snapshots]
     got = np.asarray(q8_tetrahedral(snaps, ppp=ppp))
     R.elem = N * len(frames)
@@ -345,7 +395,7 @@ def run_four(case):
     from PyMatterSim.static.geometric import q8_tetrahedral
 
     R = Result()
-    H, frames = formula_frames(case)
+    H, frames, _ = formula_frames(case)
     p = frames[0]
     ppp = np.array(case["ppp"])
     N = case["N"]
@@ -433,45 +483,85 @@ def run_nematic(case):
     R = Result()
     N = case["N"]
     T = topos3() if N == 3 else topos4()
-    ks = case["ks"]
-    F = len(ks)
-    us = [np.array([director(k) for k in row]) for row in ks]
-    if case["topo"] < 0:
+    ks = case.get("ks")
+    if case.get("us") is not None:  # explicit director vectors (exact axis directors, C17.firstframe / C17.forms)
+        us = [np.array(u, float) for u in case["us"]]
+        ks = [[tuple(v) for v in u] for u in case["us"]]
+    else:
+        us = [np.array([director(k) for k in row]) for row in ks]
+    F = len(us)
+    if case.get("tf") is not None:  # explicit topology per frame
+        tf = case["tf"]
+    elif case["topo"] < 0:
         tf = None
     elif case.get("vary"):
         tf = [T[(case["topo"] + 7 * f) % len(T)] for f in range(F)]
     else:
         tf = [T[case["topo"]]] * F
     sig = {"N": N, "file": tf is not None, "multi_frame": F > 1}
+    form = case.get("form")
+    if form:
+        sig["form"] = form
+    if case.get("tf") is not None:
+        sig["cn_class_changes"] = True
     nf = ""
     if tf is not None:
         nf = "nl_c17.dat"
         write_neighbor_file(nf, tf)
+    snaps = mk_snaps([u.tolist() for u in us], np.eye(2), [1] * N)
+    rt_q = RT
+    if form in ("float32", "int64", "int32", "F", "strided"):
+        # storage forms of the director array (the statement speaks of unit vectors, not of float64 C-ordered arrays)
+        from PyMatterSim.reader.reader_utils import SingleSnapshot, Snapshots
+
+        conv = []
+        for s_ in snaps.snapshots:
+            a = s_.positions
+            if form == "F":
+                a = np.asfortranarray(a)
+            elif form == "strided":
+                big = np.full((N, 4), 9.5)
+                big[:, ::2] = a
+                a = big[:, ::2]
+            else:
+                a = a.astype(form)
+            conv.append(SingleSnapshot(s_.timestep, s_.nparticle, s_.particle_type, a, s_.boxlength, s_.boxbounds, s_.realbounds, s_.hmatrix))
+        snaps = Snapshots(F, conv)
+        us = [np.asarray(s_.positions, float) for s_ in snaps.snapshots]  # the values actually stored
+        if form == "float32":
+            rt_q = 2e-6
     refs = [G.ref_nematic(us[f], None if tf is None else tf[f]) for f in range(F)]
     Qref = np.array([r[0] for r in refs])
     Sref = np.array([r[1] for r in refs])
     Lref = np.array([r[2] for r in refs])
-    snaps = mk_snaps([u.tolist() for u in us], np.eye(2), [1] * N)
     before = [s.positions.copy() for s in snaps.snapshots]
     res = {}
+    kw = {}
+    if case.get("nmax") is not None:
+        kw["Nmax"] = case["nmax"]
+    decoy = None
+    if case.get("posdecoy"):
+        # L1: snapshots_position is documented as "only required for spatial correlation calculation": tensor() must not look at it
+        decoy = mk_snaps([(7.0 - u[::-1]).tolist() for u in us], np.diag([9.0, 11.0]), [1] * N)
     for ev in (False, True):
-        no = NematicOrder(snaps)
-        out = np.asarray(no.tensor(ndim=2, neighborfile=nf, eigvals=ev, outputfile="nm"))
+        no = NematicOrder(snaps, decoy) if decoy is not None else NematicOrder(snaps)
+        out = np.asarray(no.tensor(ndim=2, neighborfile=nf, eigvals=ev, outputfile="nm", **kw))
         res[ev] = out
         Q = np.asarray(no.QIJ)
         s2 = dict(sig, eigvals=ev)
-        if Q.shape != Qref.shape or not np.allclose(Q, Qref, rtol=RT, atol=1e-12):
+        if Q.shape != Qref.shape or not np.allclose(Q, Qref, rtol=rt_q, atol=1e-12 if rt_q == RT else 2e-7):
             R.fail("Q tensor differs from (2 u u^T - I)/2" + (" averaged over self + listed neighbours" if tf is not None else ""),
                    sig=dict(s2, clause="tensor"), exp=Qref, obs=Q, sub="C17.nematic.tensor")
         want = 2 * Lref if ev else Sref
         if out.shape != want.shape:
             R.fail(f"shape {out.shape} != {want.shape}", sig=dict(s2, clause="shape"), sub="C17.nematic.scalar")
             return R
-        if not np.allclose(out, want, rtol=RT, atol=1e-10):
-            f, i = [int(v) for v in np.argwhere(~np.isclose(out, want, rtol=RT, atol=1e-10))[0]]
+        at_s = 1e-10 if rt_q == RT else 1e-6
+        if not np.allclose(out, want, rtol=rt_q, atol=at_s):
+            f, i = [int(v) for v in np.argwhere(~np.isclose(out, want, rtol=rt_q, atol=at_s))[0]]
             R.fail(f"frame {f} particle {i}: " + ("2 lambda_max" if ev else "sqrt(2 tr Q^2)") + f" = {out[f, i]!r}, reference {want[f, i]!r}",
                    sig=dict(s2, clause="scalar"), exp=want[f], obs=out[f], sub="C17.nematic.scalar")
-    if res[False].shape == res[True].shape and not np.allclose(res[False], res[True], rtol=RT, atol=1e-9):
+    if res[False].shape == res[True].shape and not np.allclose(res[False], res[True], rtol=rt_q, atol=1e-9 if rt_q == RT else 1e-6):
         R.fail("sqrt(2 tr Q^2) != 2 lambda_max", sig=dict(sig, clause="trace_eq_eig"), exp=res[False], obs=res[True], sub="C17.nematic.scalar")
     for s, b in zip(snaps.snapshots, before):
         if not np.array_equal(s.positions, b):
@@ -482,6 +572,10 @@ def run_nematic(case):
     R.elem = 2 * N * F
     R.outcome([res[False], res[True]])
     R.nontrivial = len({tuple(r) for r in ks}) > 1 or len(set(ks[0])) > 1
+    if case.get("part"):  # called from C17.firstframe / C17.forms / C17.unwrapped: report under that sub-check
+        for v in R.viol:
+            if v:
+                v["sub"] = None
     return R
 
 
@@ -533,6 +627,9 @@ def run_gyration(case):
     sig = {"d": d, "kind": case["kind"], "N2": N == 2}
     if case.get("layout"):
         sig["layout"] = case["layout"]
+    if case.get("form"):
+        p = p.astype(case["form"])  # integer lattice points stored as int64 / int32 / float32 (exact): npt.NDArray is all the documentation asks for
+        sig["form"] = case["form"]
     p0 = p.copy()
     got = gyration_tensor(p)
     names = ["radius_of_gyration", "asphericity", "acylindricity", "shape_anisotropy", "fractal_dimension"] if d == 3 else \
@@ -545,20 +642,23 @@ def run_gyration(case):
     gotc = np.array([complex(g) for g in got])
     gr = gotc.real
     ill = abs(ref["log10rg"]) < 1e-7
+    # float32 positions: the routine may work in the precision of its input (2e-6 relative); every other form: 1e-9
+    lo = 2000.0 if case.get("form") == "float32" else 1.0
+    RTg, ATg = RT * lo, (2e-6 if lo > 1 else AT)
     for k, name in enumerate(names):
         e = ref["list"][k]
         if name == "fractal_dimension":
-            if ill:
+            if ill or (lo > 1 and abs(ref["log10rg"]) < 1e-2):
                 continue
-            ok = abs(gr[k] * ref["log10rg"] - math.log10(N)) <= 1e-9 + 1e-10 * abs(gr[k]) and abs(gotc[k].imag) <= 1e-9 * (1 + abs(gr[k]))
+            ok = abs(gr[k] * ref["log10rg"] - math.log10(N)) <= lo * (1e-9 + 1e-10 * abs(gr[k])) and abs(gotc[k].imag) <= 1e-9 * (1 + abs(gr[k]))
         elif name == "shape_anisotropy":
-            ok = abs(gr[k] - e) <= 1e-9 and abs(gr[k] - ref["anisotropy_invariant"]) <= 1e-9 and abs(gotc[k].imag) <= 1e-9
+            ok = abs(gr[k] - e) <= 1e-9 * lo and abs(gr[k] - ref["anisotropy_invariant"]) <= 1e-9 * lo and abs(gotc[k].imag) <= 1e-9
         elif name == "radius_of_gyration":
-            ok = abs(gr[k] - e) <= RT * e and abs(gotc[k].imag) <= 1e-9 * e
+            ok = abs(gr[k] - e) <= RTg * e and abs(gotc[k].imag) <= 1e-9 * e
         else:
-            ok = abs(gr[k] - e) <= AT * scale + RT * abs(e) and abs(gotc[k].imag) <= AT * scale
+            ok = abs(gr[k] - e) <= ATg * scale + RTg * abs(e) and abs(gotc[k].imag) <= ATg * scale
             if ok and name == "acylindricity" and d == 2:
-                ok = abs(gr[k] - ref["acyl_invariant"]) <= 1e-7 * scale
+                ok = abs(gr[k] - ref["acyl_invariant"]) <= 1e-7 * scale * lo
         if not ok:
             R.fail(f"{name} = {got[k]!r}, documented function of the eigenvalues {ref['lam'].tolist()} gives {e!r}",
                    sig=dict(sig, clause=name), exp=ref["list"], obs=[str(g) for g in got])
@@ -823,6 +923,801 @@ def run_scale(case):
     return run_gyration(case)
 
 
+# ======================================================================================= C17.corr
+# The correlation methods of the anchored classes.  Property C17 itself says nothing about them; what is claimed is what the class docstrings
+# say: spatial_corr = frame mean of the conditional pair correlation (C13 model) of the per-particle S2 values (divided by THAT frame's mean
+# when mean_norm) resp. of the Q tensors; time_corr = the time correlation (C14 model) of the same per-particle quantities.
+CORR_L2 = [3.0, 2.5]  # cell of the nematic position trajectory (shortest edge y)
+CORR_DIRS = {
+    "generic": [[0, 1, 2, 3], [4, 2, 7, 1], [5, 5, 0, 6]],
+    "axis": [[(1.0, 0.0), (0.0, 1.0), (-1.0, 0.0), (0.6, 0.8)], [(0.0, -1.0), (0.0, 1.0), (0.8, -0.6), (1.0, 0.0)], [(0.0, 1.0), (1.0, 0.0), (1.0, 0.0), (-0.6, 0.8)]],
+}
+CORR_TOPO = {  # per-frame neighbour topologies (N = 4; N = 3 drops particle 3): class of frame 0 differs from the later frames
+    "same": [[[1], [0, 2], [1, 3], [2]]] * 3,
+    "empty>ragged": [[[], [], [], []], [[1], [0, 2, 3], [1], []], [[3, 2, 1], [2], [0], [1, 0]]],
+    "ragged>empty": [[[3, 2, 1], [2], [0], [1, 0]], [[], [], [], []], [[1], [0], [3], [2]]],
+}
+
+
+def corr_topo(name, N, F):
+    return [[[j for j in x if j < N] for x in fr[:N]] for fr in CORR_TOPO[name][:F]]
+
+
+def corr_dirs(name, N, F):
+    rows = CORR_DIRS[name][:F]
+    if name == "generic":
+        return [[director(k) for k in row[:N]] for row in rows]
+    return [[list(v) for v in row[:N]] for row in rows]
+
+
+def _half(q, *idx):
+    """quick tier: the half fraction of a factorial design in which the factor indices sum to an even number (every pair of factor levels still occurs)"""
+    return (not q) or sum(idx) % 2 == 0
+
+
+def _corr_dt(k):
+    """time step of a correlation case: the default, 0.5, and (L8) an explicit zero as float / int"""
+    return 0.0 if k % 7 == 0 else (0 if k % 7 == 3 else (0.5 if k % 3 == 0 else 0.002))
+
+
+def gen_corr(tier, seed):
+    q = tier == "quick"
+    k = 0
+    for d in (2, 3):
+        for ics, cs in enumerate(("orth", "tri", "orth>tri", "tri>orth")):
+            for N in (3, 4):
+                for ifs, (F, spacing) in enumerate(((2, "even"), (3, "even"), (3, "uneven"))):
+                    for isp, spread in enumerate(("cluster", "gas>cluster")):
+                        for K in (1, 2):
+                            for im, m in enumerate(([1] * d, [1] + [0] * (d - 1))):
+                                for ib, (rd, nd) in enumerate(((0.05, 20), (0.1, 20))):
+                                    k += 1
+                                    if not _half(q, d, ics, N, ifs, isp, K, im, ib):
+                                        continue
+                                    sp = [0.45] * F if spread == "cluster" else [1.0] + [0.45] * (F - 1)
+                                    c = {"part": "s2", "d": d, "cellseq": cs, "N": N, "F": F, "spacing": spacing, "spread": sp, "K": K, "ppp": m, "rd": rd, "nd": nd,
+                                         "tag": 0, "dt": _corr_dt(k), "files": k % 4 == 0, "unwrap": k % 3 == 1, "seed": seed}
+                                    Hs = Y.cells(S2_L[d], cs, F)
+                                    rm = (nd - 1) * rd + rd / 2
+                                    for tag in range(6):  # first placement table in which every particle of every frame has a pair inside r_m
+                                        fr = s2_frames(seed, d, N, sp, f"c{tag}", F, np.array(Hs))
+                                        if all(G.s2_admissible(p, H, m, rm) for p, H in zip(fr, Hs)):
+                                            c["tag"] = f"c{tag}"
+                                            yield c
+                                            break
+    k = 0
+    for N in (3, 4):
+        for ifs, (F, spacing) in enumerate(((2, "even"), (3, "even"), (3, "uneven"), (3, "offset"))):
+            for ics, cs in enumerate(("orth", "tri", "orth>tri", "tri>orth")):
+                for it, topo in enumerate(("none", "same", "empty>ragged", "ragged>empty")):
+                    for idr, dirs in enumerate(("generic", "axis")):
+                        for iw, w in enumerate((0.25, 0.2)):
+                            for im, m in enumerate(([1, 1], [1, 0])):
+                                k += 1
+                                if not _half(q, N, ifs, ics, it, idr, iw, im):
+                                    continue
+                                yield {"part": "nematic", "N": N, "F": F, "spacing": spacing, "cellseq": cs, "topo": topo, "dirs": dirs, "w": w, "ppp": m,
+                                       "dt": _corr_dt(k), "files": k % 4 == 0, "eigvals": bool(k % 2), "unwrap": k % 3 == 1, "seed": seed}
+
+
+def _cmp_table(R, sg, what, tab, cols, scale_cols=("gr", "gA")):
+    """every entry of a returned DataFrame against the reference columns (dict name -> array)"""
+    names = list(cols)
+    if [str(c) for c in tab.columns] != names or len(tab) != len(cols[names[0]]):
+        R.fail(f"{what}: columns {list(tab.columns)} x {len(tab)} rows; expected {names} x {len(cols[names[0]])}", sig=dict(sg, clause="columns"))
+        return False
+    ok = True
+    for c in names:
+        got = tab[c].values.astype(float)
+        ref = np.asarray(cols[c], float)
+        at = AT * max(1.0, float(np.abs(ref).max()))
+        if not np.allclose(got, ref, rtol=RT, atol=at):
+            k = int(np.argmax(np.abs(got - ref)))
+            R.fail(f"{what}: column {c} row {k} = {got[k]!r}, reference {ref[k]!r}", sig=dict(sg, clause=c), exp=ref, obs=got)
+            ok = False
+    return ok
+
+
+def run_corr(case):
+    return run_corr_s2(case) if case["part"] == "s2" else run_corr_nematic(case)
+
+
+def run_corr_s2(case):
+    from PyMatterSim.static.pairentropy import S2
+
+    R = Result()
+    d, N, F, K = case["d"], case["N"], case["F"], case["K"]
+    Hs = Y.cells(S2_L[d], case["cellseq"], F)
+    frames = s2_frames(case["seed"], d, N, case["spread"], case["tag"], F, np.array(Hs))
+    ppp = np.array(case["ppp"])
+    rd, nd = case["rd"], case["nd"]
+    sigm = np.array(S2_SIG["k1" if K == 1 else "k2a"])
+    base = [1] * N if K == 1 else [1 + (i % 2) for i in range(N)]
+    types_f = [base if f % 2 == 0 else base[::-1] for f in range(F)] if K == 2 else [base] * F
+    steps = Y.steps_for(case["spacing"], F)
+    sg = {"part": "s2", "d": d, "cellseq": case["cellseq"], "K": K, "masked": bool((ppp == 0).any()), "spacing": case["spacing"], "F": F}
+    refs = []
+    for f, p in enumerate(frames):
+        tm = min(frac_tie_margin(p - p[i], Hs[f], ppp) for i in range(N))
+        s2, info = G.ref_s2(p, Hs[f], types_f[f], sigm, ppp, rd, nd)
+        if tm < 1e-9 or info["margin"] < 1e-9 or min(info["nneigh"]) == 0 or not (info["gmin"] > 1e-290):
+            return R.screen()
+        refs.append(s2)
+    refs = np.array(refs)
+    lib_frames = frames
+    if case.get("unwrap"):
+        lib_frames = [frames[0]] + [Y.unwrap(p, Hs[f], ppp, phase=f) for f, p in enumerate(frames) if f > 0]  # L7: later frames unfolded
+        sg["unwrapped"] = True
+    if case["dt"] == 0:
+        sg["dt_zero"] = True
+    snaps = mk_snaps([p.tolist() for p in lib_frames], np.array(Hs), types_f, steps=steps)
+    obj = S2(snaps, sigm, ppp, rd, nd)
+    got = np.asarray(obj.particle_s2())
+    if got.shape != refs.shape or not np.allclose(got, refs, rtol=RT, atol=AT):
+        R.fail("particle S2 differs from the documented formula", sig=dict(sg, clause="s2"), exp=refs, obs=got)
+        return R
+    kept = np.array(obj.s2_results, copy=True)
+    tabs = []
+    ncmp = 0
+    for mn in (False, True, False):
+        conds = [r / r.mean() for r in refs] if mn else list(refs)
+        ref = Y.ref_spatial(frames, Hs, ppp, rd, conds, "float")
+        if ref["ambiguous"]:
+            return R.screen()
+        cols = dict(ref["cols"])
+        relvar = min(Y.rel_variance(c) for c in conds)
+        fn = f"c17_gs_{int(mn)}.csv" if case["files"] else ""
+        tab = obj.spatial_corr(mean_norm=mn, outputfile=fn)
+        s1 = dict(sg, mean_norm=mn)
+        if "gA_norm" not in tab.columns:
+            R.fail(f"spatial_corr: columns {list(tab.columns)} lack gA_norm", sig=dict(s1, clause="columns"))
+            return R
+        if relvar < 1e-6 or "gA_norm" not in cols:  # the documented quotient (gA - <A>^2)/(<A^2> - <A>^2) is ill-conditioned: not compared
+            cols["gA_norm"] = tab["gA_norm"].values.astype(float)
+        elif not np.allclose(tab["gA_norm"].values.astype(float), cols["gA_norm"], rtol=1e-7, atol=1e-8 / relvar * max(1.0, float(np.abs(cols["gA"]).max()))):
+            R.fail("S2.spatial_corr: gA_norm differs from the frame mean of (gA - <A>^2)/(<A^2> - <A>^2)", sig=dict(s1, clause="gA_norm"), exp=cols["gA_norm"],
+                   obs=tab["gA_norm"].values)
+        else:
+            cols["gA_norm"] = tab["gA_norm"].values.astype(float)
+        _cmp_table(R, s1, f"S2.spatial_corr(mean_norm={mn})", tab, {k_: cols[k_] for k_ in ("r", "gr", "gA", "gA_norm")})
+        ncmp += 4 * len(tab)
+        if fn:
+            why = Y.csv_matches(fn, tab, 8)
+            if why:
+                R.fail(f"S2.spatial_corr: csv {why}", sig=dict(s1, clause="csv"))
+            if os.path.exists(fn):
+                os.remove(fn)
+        tabs.append(tab.values.astype(float))
+        if not np.array_equal(np.asarray(obj.s2_results), kept):
+            R.fail("spatial_corr modified the stored S2 values", sig=dict(s1, clause="state_modified"))
+            return R
+    if not np.array_equal(tabs[0], tabs[2], equal_nan=True):
+        R.fail("spatial_corr(mean_norm=False) changes after a spatial_corr(mean_norm=True) call on the same object", sig=dict(sg, clause="repeat"))
+    t, Cn, c0, linear = Y.ref_time(refs, steps, case["dt"])
+    fn = "c17_gt.csv" if case["files"] else ""
+    tt = obj.time_corr(dt=case["dt"], outputfile=fn)
+    _cmp_table(R, dict(sg, linear=linear), "S2.time_corr", tt, {"t": t, "time_corr": Cn})
+    ncmp += 2 * len(tt)
+    if fn:
+        why = Y.csv_matches(fn, tt, 6)
+        if why:
+            R.fail(f"S2.time_corr: csv {why}", sig=dict(sg, clause="csv_time"))
+        if os.path.exists(fn):
+            os.remove(fn)
+    R.elem = ncmp
+    R.outcome([tabs[0], tabs[1], tt.values.astype(float)], nd=7)
+    R.nontrivial = ref["populated"] >= 2 and relvar >= 1e-6
+    return R
+
+
+def run_corr_nematic(case):
+    from PyMatterSim.static.nematic import NematicOrder
+
+    R = Result()
+    N, F = case["N"], case["F"]
+    Hs = Y.cells(CORR_L2, case["cellseq"], F)
+    frames = [np.array(A.generic_points(case["seed"], N, 2, tag=f"c17cn{N}f{f}_")) @ Hs[f] for f in range(F)]
+    us = [np.array(u) for u in corr_dirs(case["dirs"], N, F)]
+    tf = None if case["topo"] == "none" else corr_topo(case["topo"], N, F)
+    ppp = np.array(case["ppp"])
+    w = case["w"]
+    steps = Y.steps_for(case["spacing"], F)
+    sg = {"part": "nematic", "cellseq": case["cellseq"], "topo": case["topo"], "dirs": case["dirs"], "masked": bool((ppp == 0).any()), "spacing": case["spacing"], "F": F}
+    if min(frac_tie_margin(p - p[i], H, ppp) for p, H in zip(frames, Hs) for i in range(N)) < 1e-9:
+        return R.screen()
+    nf = ""
+    if tf is not None:
+        nf = "nl_c17c.dat"
+        write_neighbor_file(nf, tf)
+    Q = np.array([G.ref_nematic(us[f], None if tf is None else tf[f])[0] for f in range(F)])
+    so = mk_snaps([u.tolist() for u in us], np.eye(2), [1] * N, steps=steps)
+    lib_frames = frames
+    if case.get("unwrap"):
+        lib_frames = [frames[0]] + [Y.unwrap(p, Hs[f], ppp, phase=f) for f, p in enumerate(frames) if f > 0]  # L7: later frames unfolded
+        sg["unwrapped"] = True
+    if case["dt"] == 0:
+        sg["dt_zero"] = True
+    sp = mk_snaps([p.tolist() for p in lib_frames], np.array(Hs), [1] * N, steps=steps)
+    no = NematicOrder(so, sp)
+    no.tensor(ndim=2, neighborfile=nf, eigvals=case["eigvals"], outputfile="nmc")
+    if np.asarray(no.QIJ).shape != Q.shape or not np.allclose(no.QIJ, Q, rtol=RT, atol=1e-12):
+        R.fail("Q tensor differs from its definition", sig=dict(sg, clause="tensor"))
+        return R
+    ref = Y.ref_spatial(frames, Hs, ppp, w, list(Q), "tensor")
+    if ref["ambiguous"]:
+        return R.screen()
+    fn = "c17_gq.csv" if case["files"] else ""
+    tab = no.spatial_corr(rdelta=w, ppp=ppp, outputfile=fn)
+    _cmp_table(R, sg, "NematicOrder.spatial_corr", tab, {k_: ref["cols"][k_] for k_ in ("r", "gr", "gA")})
+    if fn:
+        why = Y.csv_matches(fn, tab, 8)
+        if why:
+            R.fail(f"NematicOrder.spatial_corr: csv {why}", sig=dict(sg, clause="csv"))
+        if os.path.exists(fn):
+            os.remove(fn)
+    t, Cn, c0, linear = Y.ref_time(Q, steps, case["dt"])
+    fn = "c17_qt.csv" if case["files"] else ""
+    tt = no.time_corr(dt=case["dt"], outputfile=fn)
+    _cmp_table(R, dict(sg, linear=linear), "NematicOrder.time_corr", tt, {"t": t, "time_corr": Cn})
+    if fn:
+        why = Y.csv_matches(fn, tt, 8)
+        if why:
+            R.fail(f"NematicOrder.time_corr: csv {why}", sig=dict(sg, clause="csv_time"))
+        if os.path.exists(fn):
+            os.remove(fn)
+    for f_ in ("nmc.QIJ_raw.npy", "nmc.QIJ_cg.npy", "nmc.eigval.npy", "nmc.Qtrace.npy", "nl_c17c.dat"):
+        if os.path.exists(f_):
+            os.remove(f_)
+    R.elem = 3 * len(tab) + 2 * len(tt)
+    R.outcome([tab.values.astype(float), tt.values.astype(float)], nd=7)
+    R.nontrivial = ref["populated"] >= 2 and bool(np.any(ref["cols"]["gA"] != 0))
+    return R
+
+
+# ================================================================================= C17.firstframe
+# L2: trajectories whose FIRST frame is of another class than the later ones - orthogonal cell first and tilted cells later (a shear run started
+# from the undeformed box) and the reverse, at constant edge lengths; a dilute first frame (few pairs inside r_m) followed by clustered ones and the
+# reverse; a first frame without any neighbour followed by ragged lists.  Whatever is decided once from frame 0 and reused shows here only.
+FF_TOPO4 = {
+    "empty>ragged": [[[], [], [], []], [[1], [0, 2, 3], [1], []], [[3, 2, 1], [2], [0], [1, 0]]],
+    "one>full": [[[1], [0], [3], [2]], [[1, 2, 3], [0, 2, 3], [0, 1, 3], [0, 1, 2]], [[2], [3, 0], [], [0, 1, 2]]],
+    "full>one": [[[1, 2, 3], [0, 2, 3], [0, 1, 3], [0, 1, 2]], [[1], [0], [3], [2]], [[], [], [], [2]]],
+    "ragged>empty": [[[3, 2, 1], [2], [0], [1, 0]], [[], [], [], []], [[], [3], [], []]],
+}
+
+
+def gen_firstframe(tier, seed):
+    q = tier == "quick"
+    k = 0
+    for d in (2, 3):
+        for cs in ("orth>tri", "tri>orth", "o>t>o"):
+            for F in (2, 3):
+                if cs == "o>t>o" and F == 2:
+                    continue
+                for N in (3, 4, 5):
+                    for spread in ("cluster", "gas>cluster", "cluster>gas"):
+                        sp = {"cluster": [0.45] * F, "gas>cluster": [1.0] + [0.45] * (F - 1), "cluster>gas": [0.45] + [1.0] * (F - 1)}[spread]
+                        for (rd, nd) in ((0.05, 20), (0.1, 40)):
+                            rm = (nd - 1) * rd + rd / 2
+                            Hs = Y.cells(S2_L[d], cs, F)
+                            for m in A.masks(d):
+                                if not any(m):
+                                    continue  # no periodic axis: the cell does not enter
+                                fr = s2_frames(seed, d, N, sp, "ff", F, np.array(Hs))
+                                if not all(G.s2_admissible(p, H, m, rm) for p, H in zip(fr, Hs)):
+                                    continue
+                                for sk in ("k1", "k2a"):
+                                    k += 1
+                                    if q and k % 3:
+                                        continue
+                                    types = [1] * N if sk == "k1" else [2] + [1] * (N - 1)
+                                    c = {"part": "s2", "d": d, "cellseq": cs, "cell": cs, "N": N, "spread": sp, "tag": "ff", "F": F, "rd": rd, "nd": nd, "ppp": m, "sig": sk,
+                                         "types": types, "savegr": bool(k % 2), "seed": seed}
+                                    if sk == "k2a":
+                                        c["swap"] = True
+                                    yield c
+    for cs in ("orth>tri", "tri>orth", "o>t>o"):
+        for F in (2, 3):
+            if cs == "o>t>o" and F == 2:
+                continue
+            for N in (5, 6, 8):
+                for tag in range(2 if q else 6):
+                    for m in A.masks(3):
+                        if not any(m):
+                            continue
+                        yield {"part": "tetra", "kind": "generic", "cell": "orth", "cellseq": cs, "N": N, "tag": f"ff{tag}", "ppp": m, "F": F, "seed": seed}
+    for name in FF_TOPO4:
+        for F in (2, 3):
+            for k0 in range(8):
+                for k1 in (range(0, 8, 2) if q else range(8)):
+                    ks = [[(k0 + 3 * f) % 8, (k1 + f) % 8, (k0 + k1 + 5 * f + 1) % 8, (2 * k0 + k1 + 2 * f + 3) % 8] for f in range(F)]
+                    yield {"part": "nematic", "N": 4, "topo": 0, "ks": ks, "tf": [list(x) for x in FF_TOPO4[name][:F]], "class": name, "seed": seed}
+
+
+def gen_unwrapped(tier, seed):
+    """L7: the small S2 / tetrahedral alphabets with particles displaced by n H, n in {0,+2,-3,+4} per particle and axis (periodic axes only)"""
+    q = tier == "quick"
+    for d in (2, 3):
+        for cell in ("orth", "tri"):
+            H = s2_cell(d, cell)
+            for N in (3, 4, 5):
+                for spread in (0.45, 1.0):
+                    for F in (1, 2):
+                        frames = s2_frames(seed, d, N, spread, "uw", F, H)
+                        for (rd, nd) in ((0.05, 20), (0.1, 40)):
+                            rm = (nd - 1) * rd + rd / 2
+                            for m in A.masks(d):
+                                if not any(m) or not all(G.s2_admissible(p, H, m, rm) for p in frames):
+                                    continue
+                                for sk in ("k1", "k2a"):
+                                    if q and sk == "k2a" and F == 2:
+                                        continue
+                                    types = [1] * N if sk == "k1" else [1 + (i % 2) for i in range(N)]
+                                    yield {"part": "s2", "d": d, "cell": cell, "N": N, "spread": spread, "tag": "uw", "F": F, "rd": rd, "nd": nd, "ppp": m, "sig": sk,
+                                           "types": types, "savegr": bool((N + F + nd // 20) % 2), "unwrap": True, "seed": seed}
+    for cell in ("orth", "tri"):
+        for N in (5, 6, 8):
+            for tag in range(2 if q else 6):
+                for m in A.masks(3):
+                    if not any(m):
+                        continue
+                    for F in (1, 2):
+                        yield {"part": "tetra", "kind": "generic", "cell": cell, "N": N, "tag": f"uw{tag}", "ppp": m, "F": F, "unwrap": True, "seed": seed}
+
+
+def run_firstframe(case):
+    if case["part"] == "s2":
+        return run_s2(case)
+    if case["part"] == "tetra":
+        return run_formula(case)
+    return run_nematic(case)
+
+
+# ===================================================================================== C17.forms
+# L4 / L5 / L1: exact zeros in the value alphabets, storage types and orders of the input arrays, options that are documented to be irrelevant.
+def gen_forms(tier, seed):
+    # nematic: exact axis directors (Q has exact zeros and exact +-1/2), stored as float64 / float32 / int64 / int32, C- / Fortran-ordered / strided;
+    # Nmax without a neighbour file (irrelevant there) and a position trajectory handed to the constructor (irrelevant for tensor())
+    ax = Y.AXIS
+    nt = len(topos3())
+    for combo in itertools.product(range(4), repeat=3):
+        us = [[ax[k] for k in combo], [ax[(k + 1 + i) % 4] for i, k in enumerate(combo)]]
+        for form in ("float64", "float32", "int64", "int32", "F", "strided"):
+            for t in (-1, (7 * sum(combo) + 3) % nt, nt - 1):
+                c = {"part": "nematic", "N": 3, "topo": t, "us": us, "form": form, "seed": seed}
+                if t < 0:
+                    c["nmax"] = 1 + sum(combo) % 2  # documented as the maximum number of NEIGHBOURS: nothing to cap without a list
+                    c["posdecoy"] = True
+                yield c
+    mix = [[0.6, 0.8], [-0.8, 0.6], [0.0, 1.0], [0.28, -0.96]]  # exact in binary up to 1 ulp of the norm; float32 storage changes the values (reference uses the stored ones)
+    for shift in range(4):
+        us = [[mix[(shift + i) % 4] for i in range(3)], [mix[(shift + 2 * i + 1) % 4] for i in range(3)]]
+        for form in ("float64", "float32", "F"):
+            for t in (-1, 5, nt - 1):
+                yield {"part": "nematic", "N": 3, "topo": t, "us": us, "form": form, "posdecoy": t < 0, "seed": seed}
+    # S2 / tetrahedral: positions Fortran-ordered / strided, species as int32 / int64 / float-valued integers, ppp as int32 / int64 / int8,
+    # widths as float32 (values exact in float32), a particle exactly at the origin / on a face of the cell
+    for d in (2, 3):
+        for cellname in ("orth", "tri"):
+            for form in ("F", "strided", "types_i32", "types_f64", "ppp_i32", "ppp_i8", "sig_f32", "origin", "face"):
+                for K in (1, 2):
+                    for N in (3, 4):
+                        yield {"part": "s2", "d": d, "cell": cellname, "N": N, "K": K, "form": form, "F": 2, "seed": seed}
+    for cellname in ("orth", "tri"):
+        for form in ("F", "strided", "ppp_i32", "ppp_i8", "origin", "face"):
+            for N in (5, 7):
+                for m in ([1, 1, 1], [1, 0, 1]):
+                    yield {"part": "tetra", "cell": cellname, "N": N, "form": form, "ppp": m, "F": 2, "seed": seed}
+    # gyration: integer-typed and float32 positions (values exact in both)
+    for d in (2, 3):
+        n = 3 ** d
+        for N in (2, 3, 4):
+            for sub in list(itertools.combinations(range(n), N))[:: (11 if d == 3 else 3)]:
+                for form in ("int64", "int32", "float32"):
+                    yield {"part": "gyration", "kind": "lattice", "d": d, "subset": list(sub), "scale": 1.0, "form": form, "seed": seed}
+
+
+FORM_SIG = {1: [[0.5]], 2: [[0.5, 0.375], [0.375, 0.25]]}  # exact in float32
+
+
+def _reform_positions(snaps, form, special=None):
+    """a Snapshots object with the same content whose position arrays are stored in another way"""
+    from PyMatterSim.reader.reader_utils import SingleSnapshot, Snapshots
+
+    out = []
+    for s_ in snaps.snapshots:
+        a = s_.positions
+        n, d = a.shape
+        if form == "F":
+            a = np.asfortranarray(a)
+        elif form == "strided":
+            big = np.full((n, 2 * d), -3.25)
+            big[:, ::2] = a
+            a = big[:, ::2]
+        t = s_.particle_type
+        if form == "types_i32":
+            t = t.astype(np.int32)
+        elif form == "types_f64":
+            t = t.astype(np.float64)
+        out.append(SingleSnapshot(s_.timestep, s_.nparticle, t, a, s_.boxlength, s_.boxbounds, s_.realbounds, s_.hmatrix))
+    return Snapshots(len(out), out)
+
+
+def run_forms(case):
+    part = case["part"]
+    if part == "nematic":
+        return run_nematic(case)
+    if part == "gyration":
+        return run_gyration(case)
+    R = Result()
+    form, F, N = case["form"], case["F"], case["N"]
+    d = case["d"] if part == "s2" else 3
+    Ld = S2_L[d] if part == "s2" else F_L
+    tilts = None if part == "s2" else T_TILT
+    H = Y.cell(Ld, case["cell"], tilts)
+    ppp_l = case.get("ppp") or [1] * d
+    sg = {"part": part, "d": d, "cell": case["cell"], "form": form}
+    frames = None
+    for tag in range(40):
+        fr = [np.array(A.generic_points(case["seed"], N, d, tag=f"c17fo{part}{N}{d}t{tag}f{f}_")) for f in range(F)]
+        if part == "s2":
+            fr = [0.5 + 0.45 * (x - 0.5) for x in fr]
+        if form == "origin":
+            fr[0][0, :] = 0.0  # exactly at the origin of the cell
+            fr[1][N - 1, :] = 0.0
+        elif form == "face":
+            fr[0][N - 1, 0] = 0.0  # on the face x = 0 (fractional coordinate exactly 0)
+            fr[1][0, d - 1] = 0.0
+        fr = [x @ H for x in fr]
+        ok = all(min(frac_tie_margin(p - p[i], H, ppp_l) for i in range(N)) >= 1e-9 for p in fr)
+        if ok and part == "s2":
+            ok = all(G.s2_admissible(p, H, ppp_l, 0.975) for p in fr)
+        if ok and part == "tetra":
+            ok = all(G.ref_tetra(p, H, ppp_l)[2] >= 1e-9 for p in fr)
+        if ok:
+            frames = fr
+            break
+    if frames is None:
+        return R.screen()
+    ppp = np.array(ppp_l, dtype={"ppp_i32": np.int32, "ppp_i8": np.int8}.get(form, np.int64))
+    if part == "s2":
+        from PyMatterSim.static.pairentropy import S2
+
+        K = case["K"]
+        base = [1] * N if K == 1 else [1 + (i % 2) for i in range(N)]
+        types_f = [base, base[::-1]] if K == 2 else [base, base]
+        sigm = np.array(FORM_SIG[K])
+        sig_in = sigm.astype(np.float32) if form == "sig_f32" else sigm.copy()
+        rt = 2e-6 if form == "sig_f32" else RT
+        refs, grs = [], []
+        for f, p in enumerate(frames):
+            s2, info = G.ref_s2(p, H, types_f[f], sigm, ppp_l, 0.05, 20)
+            if info["margin"] < 1e-9 or min(info["nneigh"]) == 0 or not (info["gmin"] > 1e-290):
+                return R.screen()
+            refs.append(s2)
+            grs.append(G.ref_s2_gr(p, H, types_f[f], sigm, ppp_l, 0.05, 20))
+        refs, grs = np.array(refs), np.array(grs)
+        snaps = _reform_positions(mk_snaps([p.tolist() for p in frames], H, types_f), form)
+        before = [s_.positions.copy() for s_ in snaps.snapshots]
+        out = S2(snaps, sig_in, ppp, 0.05, 20).particle_s2(savegr=True)
+        for fn in ("particle_gr..npy", "particle_gr.npy"):
+            if os.path.exists(fn):
+                os.remove(fn)
+        got, pgr = np.asarray(out[0]), np.asarray(out[1])
+        if got.shape != refs.shape or not np.allclose(got, refs, rtol=rt, atol=AT if rt == RT else 1e-6):
+            R.fail(f"S2 with input form '{form}' differs from the documented formula", sig=dict(sg, clause="s2"), exp=refs, obs=got)
+        if pgr.shape != grs.shape or not np.allclose(pgr, grs, rtol=rt, atol=AT if rt == RT else 1e-6):
+            R.fail(f"smeared g with input form '{form}' differs from the documented formula", sig=dict(sg, clause="gr"))
+        R.elem = N * F * 21
+    else:
+        from PyMatterSim.static.geometric import q8_tetrahedral
+
+        refs = np.array([G.ref_tetra(p, H, ppp_l)[0] for p in frames])
+        snaps = _reform_positions(mk_snaps([p.tolist() for p in frames], H, [1] * N), form)
+        before = [s_.positions.copy() for s_ in snaps.snapshots]
+        got = np.asarray(q8_tetrahedral(snaps, ppp=ppp))
+        if got.shape != refs.shape or not np.allclose(got, refs, rtol=RT, atol=AT):
+            R.fail(f"q_tetrahedral with input form '{form}' differs from 1 - 3/32 sum (cos psi + 1/3)^2", sig=dict(sg, clause="formula"), exp=refs, obs=got)
+        R.elem = N * F
+    for s_, b in zip(snaps.snapshots, before):
+        if not np.array_equal(s_.positions, b):
+            R.fail("snapshot positions modified", sig=dict(sg, clause="input_modified"))
+    R.outcome(got)
+    R.nontrivial = True
+    return R
+
+
+# ================================================================================== C17.sequence
+# L6: words over complete calls ("letters") chosen so that pairs collide in plausible incomplete memo keys.  Every word runs in a forked child whose
+# library modules are re-imported; oracle: each call returns bit for bit what the same call returns when made FIRST in a fresh child (that single call is
+# what the other sub-checks compare with the definitions).  `ref` names the letter whose fresh result a compound letter must reproduce.
+def _seq_letters():
+    L = []
+    s = {"fn": "s2", "d": 3, "cell": "orth", "rd": 0.05, "nd": 20, "K": 1, "tag": "a", "ppp": [1, 1, 1]}
+    L.append(dict(s, id="s2a"))
+    L.append(dict(s, id="s2b", rd=0.1))                      # same number of bins / other width
+    L.append(dict(s, id="s2c", cell="tri"))                  # same cell diagonal / tilted
+    L.append(dict(s, id="s2d", d=2, ppp=[1, 1]))             # 2D after 3D
+    L.append(dict(s, id="s2e", K=2))                         # same geometry / other species and widths
+    L.append(dict(s, id="s2f", tag="b"))                     # same (frames, particles, d) / other content
+    L.append(dict(s, id="s2g", corr=True))                   # the S2 object queried further: spatial_corr(False), (True), time_corr
+    L.append(dict(s, id="s2h", edit="b", ref="s2f"))         # same object: particle_s2, positions edited IN PLACE to those of s2f, particle_s2 again
+    L.append(dict(s, id="s2i", alive="s2b", ref="s2a"))      # a second S2 object (bins of s2b) constructed and evaluated in between
+    t = {"fn": "tetra", "cell": "orth", "ppp": [1, 1, 1], "tag": "a"}
+    L.append(dict(t, id="te_a"))
+    L.append(dict(t, id="te_b", cell="tri"))
+    L.append(dict(t, id="te_c", ppp=[1, 0, 1]))
+    L.append(dict(t, id="te_d", tag="b"))
+    n = {"fn": "nematic", "topo": None, "ev": False, "ks": 0}
+    L.append(dict(n, id="ne_a"))
+    L.append(dict(n, id="ne_b", topo="A"))
+    L.append(dict(n, id="ne_c", topo="B"))                   # same file NAME / other content
+    L.append(dict(n, id="ne_d", topo="A", ev=True))
+    L.append(dict(n, id="ne_e", ks=1))                       # same shape / other directors
+    L.append(dict(n, id="ne_f", topo="A", corr=True))        # tensor, spatial_corr, time_corr on one object
+    L.append(dict(n, id="ne_g", topo="A", ks=1))             # neighbour-averaged call on OTHER directors under the output prefix of the plain calls before it
+    L.append({"fn": "gyr", "id": "gy_a", "d": 2})
+    L.append({"fn": "gyr", "id": "gy_b", "d": 3})            # same N / other dimension
+    return L
+
+
+SEQ_LETTERS = _seq_letters()
+SEQ_IDS = [l["id"] for l in SEQ_LETTERS]
+SEQ_QUICK = ["s2a", "s2b", "s2c", "s2d", "s2e", "s2g", "s2h", "s2i", "te_a", "te_b", "ne_a", "ne_b", "ne_c", "ne_e", "ne_f", "ne_g", "gy_a", "gy_b"]
+SEQ_TOPO = {"A": [[[1], [0, 2], [1]], [[2, 1], [], [0]]], "B": [[[2], [2], [0, 1]], [[1], [0, 2], []]]}
+SEQ_KS = [[[0, 3, 5], [6, 1, 4]], [[2, 2, 7], [1, 0, 3]]]
+
+
+def _seq_s2_inputs(seed, lt, tag=None):
+    d = lt["d"]
+    H = Y.cell(S2_L[d], lt["cell"])
+    frames = [(0.5 + 0.45 * (np.array(A.generic_points(seed, 4, d, tag=f"c17q{d}{tag or lt['tag']}f{f}_")) - 0.5)) @ H for f in range(2)]
+    types = [[1, 1, 1, 1]] * 2 if lt["K"] == 1 else [[1, 2, 1, 2], [2, 1, 2, 1]]
+    return H, frames, types, np.array(S2_SIG["k1" if lt["K"] == 1 else "k2a"])
+
+
+def _tab(df):
+    return X3.frame_to_json(df)
+
+
+def _seq_call(seed, lt):
+    """one letter -> JSON-able list of everything the call returned"""
+    fn = lt["fn"]
+    if fn == "s2":
+        from PyMatterSim.static.pairentropy import S2
+
+        H, frames, types, sigm = _seq_s2_inputs(seed, lt)
+        snaps = mk_snaps([p.tolist() for p in frames], H, types)
+        obj = S2(snaps, sigm, np.array(lt["ppp"]), lt["rd"], lt["nd"])
+        if lt.get("alive"):
+            o = SEQ_LETTERS[SEQ_IDS.index(lt["alive"])]
+            H2, fr2, ty2, sg2 = _seq_s2_inputs(seed, o)
+            other = S2(mk_snaps([p.tolist() for p in fr2], H2, ty2), sg2, np.array(o["ppp"]), o["rd"], o["nd"])
+            other.particle_s2()
+        out = [np.asarray(obj.particle_s2(outputfile="s2q.npy")).tolist()]
+        if lt.get("edit"):
+            _, fr2, _, _ = _seq_s2_inputs(seed, lt, tag=lt["edit"])
+            for s_, p in zip(snaps.snapshots, fr2):
+                s_.positions[...] = p  # in-place edit of the arrays the object holds
+            out = [np.asarray(obj.particle_s2()).tolist()]
+        if lt.get("corr"):
+            out += [_tab(obj.spatial_corr()), _tab(obj.spatial_corr(mean_norm=True)), _tab(obj.time_corr(dt=0.5))]
+        return out
+    if fn == "tetra":
+        from PyMatterSim.static.geometric import q8_tetrahedral
+
+        H = Y.cell(F_L, lt["cell"], T_TILT)
+        frames = [np.array(A.generic_points(seed, 6, 3, tag=f"c17qt{lt['tag']}f{f}_")) @ H for f in range(2)]
+        return [np.asarray(q8_tetrahedral(mk_snaps([p.tolist() for p in frames], H, [1] * 6), ppp=np.array(lt["ppp"]), outputfile="q8q.npy")).tolist()]
+    if fn == "nematic":
+        from PyMatterSim.static.nematic import NematicOrder
+
+        us = [[director(k) for k in row] for row in SEQ_KS[lt["ks"]]]
+        nf = ""
+        if lt["topo"]:
+            nf = "nl_c17q.dat"
+            write_neighbor_file(nf, SEQ_TOPO[lt["topo"]])
+        so = mk_snaps(us, np.eye(2), [1] * 3)
+        sp = None
+        if lt.get("corr"):
+            Hn = Y.cell(CORR_L2, "tri")
+            sp = mk_snaps([(np.array(A.generic_points(seed, 3, 2, tag=f"c17qn{f}_")) @ Hn).tolist() for f in range(2)], Hn, [1] * 3)
+        no = NematicOrder(so, sp)
+        out = [np.asarray(no.tensor(ndim=2, neighborfile=nf, eigvals=lt["ev"], outputfile="nmq")).tolist(), np.asarray(no.QIJ).tolist()]
+        if lt.get("corr"):
+            out += [_tab(no.spatial_corr(rdelta=0.25, ppp=np.array([1, 1]))), _tab(no.time_corr(dt=0.5))]
+        return out  # the files written under the prefix 'nmq' stay in place for the later calls of the word (a stale file is part of the state)
+    from PyMatterSim.static.shape import gyration_tensor
+
+    d = lt["d"]
+    p = (np.array(A.generic_points(seed, 5, d, tag=f"c17qg{d}_")) - 0.3) * np.array([1.0, 2.0, 0.5])[:d]
+    return [[[complex(v).real, complex(v).imag] for v in gyration_tensor(p)]]
+
+
+SEQ_FILES = ("nmq.QIJ_raw.npy", "nmq.QIJ_cg.npy", "nmq.eigval.npy", "nmq.Qtrace.npy", "nl_c17q.dat", "s2q.npy", "q8q.npy")
+
+
+def _seq_eval(case):
+    for f_ in SEQ_FILES:
+        if os.path.exists(f_):
+            os.remove(f_)
+    try:
+        return [_seq_call(case["seed"], SEQ_LETTERS[k]) for k in case["word"]]
+    finally:
+        for f_ in SEQ_FILES:
+            if os.path.exists(f_):
+                os.remove(f_)
+
+
+SEQ_CORE = ["s2a", "s2b", "s2c", "s2h", "s2i", "te_a", "te_b", "ne_a", "ne_c", "ne_g", "gy_a", "gy_b"]  # letters of the length-3 words (thorough)
+
+
+def gen_sequence(tier, seed):
+    if tier == "quick":
+        idx = [SEQ_IDS.index(i) for i in SEQ_QUICK]
+    else:
+        idx = list(range(len(SEQ_LETTERS)))
+    for Lw in (1, 2):
+        for word in itertools.product(idx, repeat=Lw):
+            yield {"part": "sequence", "word": list(word), "seed": seed}
+    if tier != "quick":
+        core = [SEQ_IDS.index(i) for i in SEQ_CORE]
+        for word in itertools.product(core, repeat=3):
+            if len(set(word)) == 1 or len({SEQ_LETTERS[k]["fn"] for k in word}) == 3:
+                continue  # length 3: words that return to a routine (a b a) or stay within two routines; three different routines add nothing over the pairs
+            yield {"part": "sequence", "word": list(word), "seed": seed}
+
+
+_SEQ_FRESH = {}
+
+
+def _same(a, b):
+    """bitwise equality of two JSON-able results (lists of floats / tables)"""
+    import json as _json
+
+    return _json.dumps(a, sort_keys=True) == _json.dumps(b, sort_keys=True)
+
+
+def run_sequence(case):
+    import json as _json
+
+    R = Result()
+    seed = case["seed"]
+    names = [SEQ_IDS[k] for k in case["word"]]
+    payload = X3.fresh_child(_seq_eval, case, Y.SEQ_MODS)
+    if "err" in payload:
+        R.fail(f"call sequence {names} raised {payload['err']}", sig={"part": "sequence", "exception": True})
+        return R
+    need = set()
+    for k in case["word"]:
+        need.add(SEQ_IDS.index(SEQ_LETTERS[k].get("ref", SEQ_IDS[k])))
+    for k in need:
+        if (seed, k) not in _SEQ_FRESH:
+            one = X3.fresh_child(_seq_eval, {"seed": seed, "word": [k]}, Y.SEQ_MODS)
+            if "err" in one:
+                R.fail(f"single call {SEQ_IDS[k]} raised {one['err']}", sig={"part": "sequence", "exception": True})
+                return R
+            _SEQ_FRESH[(seed, k)] = one["ok"][0]
+    states = set()
+    nel = 0
+    for pos_, (k, got) in enumerate(zip(case["word"], payload["ok"])):
+        lt = SEQ_LETTERS[k]
+        ref = _SEQ_FRESH[(seed, SEQ_IDS.index(lt.get("ref", lt["id"])))]
+        if not _same(got, ref):
+            R.fail(f"call #{pos_ + 1} ({lt['id']}: {lt['fn']}) of the sequence {names} differs from the call {lt.get('ref', lt['id'])} made first in a fresh process "
+                   f"(earlier calls: {names[:pos_]})", sig={"part": "sequence", "fn": lt["fn"], "position": "later" if pos_ else "first", "compound": "ref" in lt},
+                   exp=str(ref)[:300], obs=str(got)[:300])
+        states.add(_json.dumps(got, sort_keys=True)[:4000])
+        nel += len(_json.dumps(got)) // 20
+    R.outcome(sorted(states), nd=9)
+    R.states = len(case["word"]) + 1
+    R.transitions = len(case["word"])
+    R.elem = nel
+    R.nontrivial = True
+    return R
+
+
+# ==================================================================================== C17.dilation
+# L9 absolute scale: every length multiplied by 2^-33 / 2^27 (exact in binary floating point).  S2 is scale-free when positions, cell, rdelta and the Gaussian widths are
+# all scaled (rho r^d is dimensionless); q_tetrahedral is scale-free; the gyration descriptors scale as Rg ~ s, asphericity / acylindricity ~ s^2, anisotropy ~ 1,
+# fractal dimension = log N / log Rg(s).  Compared with the library's own result on the undilated input (which the other sub-checks compare with the definitions).
+DILATIONS = [2.0 ** -33, 2.0 ** 27]
+
+
+def gen_dilation(tier, seed):
+    for si in range(len(DILATIONS)):
+        for d in (2, 3):
+            for cell in ("orth", "tri"):
+                for N in (3, 4):
+                    for K in (1, 2):
+                        for m in A.masks(d):
+                            if not any(m):
+                                continue
+                            for F in (1, 2):
+                                yield {"part": "s2", "d": d, "cell": cell, "N": N, "K": K, "ppp": m, "F": F, "dil": si, "seed": seed}
+        for cell in ("orth", "tri"):
+            for N in (5, 6, 8):
+                for m in A.masks(3):
+                    for F in (1, 2):
+                        yield {"part": "tetra", "cell": cell, "N": N, "ppp": m, "F": F, "dil": si, "seed": seed}
+        for d in (2, 3):
+            for N in (3, 5, 8):
+                for tag in range(3):
+                    yield {"part": "gyration", "kind": "generic", "d": d, "N": N, "tag": tag, "scale": 0.5, "dil": si, "seed": seed}
+
+
+def run_dilation(case):
+    R = Result()
+    sc = DILATIONS[case["dil"]]
+    part = case["part"]
+    sg = {"part": part, "scale": "tiny" if sc < 1 else "huge"}
+    if part == "gyration":
+        from PyMatterSim.static.shape import gyration_tensor
+
+        p = gyr_points(case)
+        N, d = p.shape
+        base = [complex(v).real for v in gyration_tensor(p)]
+        got = [complex(v) for v in gyration_tensor(p * sc)]
+        pw = [1, 2, 2, 0] if d == 3 else [1, 2]
+        lam_scale = base[0] ** 2
+        for k, e in enumerate(pw):
+            want = base[k] * sc ** e
+            tol = 1e-9 * abs(want) + (1e-11 * lam_scale * sc ** 2 if e == 2 else 0.0) + (1e-9 if e == 0 else 0.0)
+            if not abs(got[k].real - want) <= tol or abs(got[k].imag) > tol:
+                R.fail(f"gyration descriptor #{k} of the cloud scaled by {sc} = {got[k]!r}, undilated value x scale^{e} = {want!r}", sig=dict(sg, clause="gyration", d=d, index=k))
+        rg = got[0].real
+        if abs(math.log10(rg)) > 1e-3 and not abs(got[-1].real * math.log10(rg) - math.log10(N)) <= 1e-9 * (1 + abs(got[-1].real)):
+            R.fail(f"fractal dimension of the cloud scaled by {sc} = {got[-1]!r} != log N / log Rg", sig=dict(sg, clause="fractal", d=d))
+        R.elem = len(got)
+        R.outcome(np.array(base))
+        R.nontrivial = True
+        return R
+    d = case["d"] if part == "s2" else 3
+    N, F = case["N"], case["F"]
+    ppp = np.array(case["ppp"])
+    sg.update(d=d, cell=case["cell"], masked=bool((ppp == 0).any()))
+    if part == "s2":
+        from PyMatterSim.static.pairentropy import S2
+
+        H = Y.cell(S2_L[d], case["cell"])
+        frames = None
+        for tag in range(20):
+            fr = [(0.5 + 0.45 * (np.array(A.generic_points(case["seed"], N, d, tag=f"c17dl{N}{d}t{tag}f{f}_")) - 0.5)) @ H for f in range(F)]
+            if all(G.s2_admissible(p, H, case["ppp"], 0.975) and min(frac_tie_margin(p - p[i], H, ppp) for i in range(N)) > 1e-9 for p in fr):
+                frames = fr
+                break
+        if frames is None:
+            return R.screen()
+        K = case["K"]
+        types = [1] * N if K == 1 else [1 + (i % 2) for i in range(N)]
+        sigm = np.array(S2_SIG["k1" if K == 1 else "k2a"])
+        base = np.asarray(S2(mk_snaps([p.tolist() for p in frames], H, types), sigm, ppp, 0.05, 20).particle_s2())
+        got = np.asarray(S2(mk_snaps([(p * sc).tolist() for p in frames], H * sc, types), sigm * sc, ppp, 0.05 * sc, 20).particle_s2())
+        what = "S2 (positions, cell, rdelta and widths"
+    else:
+        from PyMatterSim.static.geometric import q8_tetrahedral
+
+        H = Y.cell(F_L, case["cell"], T_TILT)
+        frames = None
+        for tag in range(20):
+            fr = [np.array(A.generic_points(case["seed"], N, 3, tag=f"c17dt{N}t{tag}f{f}_")) @ H for f in range(F)]
+            if all(G.ref_tetra(p, H, ppp)[2] > 1e-6 and min(frac_tie_margin(p - p[i], H, ppp) for i in range(N)) > 1e-9 for p in fr):
+                frames = fr
+                break
+        if frames is None:
+            return R.screen()
+        base = np.asarray(q8_tetrahedral(mk_snaps([p.tolist() for p in frames], H, [1] * N), ppp=ppp))
+        got = np.asarray(q8_tetrahedral(mk_snaps([(p * sc).tolist() for p in frames], H * sc, [1] * N), ppp=ppp))
+        what = "q_tetrahedral (positions and cell"
+    if got.shape != base.shape or not np.allclose(got, base, rtol=1e-9, atol=1e-11):
+        R.fail(f"{what} multiplied by {sc}) differs from the undilated result: max |diff| = {np.abs(got - base).max() if got.shape == base.shape else 'shape'}",
+               sig=dict(sg, clause="scale_free"), exp=base, obs=got)
+    R.elem = base.size
+    R.outcome(base)
+    R.nontrivial = True
+    return R
+
+
 def subs(tier, seed):
     return [
         Sub("C17.s2", gen_s2, run_s2,
@@ -856,6 +1751,52 @@ def subs(tier, seed):
                  "generic clouds N=5..8; every descriptor vs the documented function of eigvalsh(S) plus eigen-free invariants "
                  "(Rg^2 = tr S, kappa^2 = 3/2 tr S^2/(tr S)^2 - 1/2); non-trivial = N > 2",
             bounds={"N": [2, 8]}),
+        Sub("C17.corr", gen_corr, run_corr,
+            rule="the correlation methods of the anchored classes on small multi-frame inputs.  S2: d in {2,3} x cell class per frame {orthogonal, triclinic, "
+                 "orthogonal first then tilted, tilted first then orthogonal} (constant edge lengths) x N in {3,4} x (2 frames, 3 evenly spaced, 3 unevenly spaced) x {clustered, "
+                 "dilute first frame then clustered} x K in {1, 2 with the species labels reversed in every second frame} x {periodic, one periodic axis} x bins (0.05,20),(0.1,20)"
+                 + (" (every second combination)" if tier == "quick" else "") + ": spatial_corr(mean_norm False / True / False again) = frame mean of the C13 conditional g(r) "
+                 "(mc/ref/c04c13.cond_gr_loops) of the reference S2 values, each frame divided by ITS OWN mean when mean_norm; time_corr = C14 model (mc/ref/dyn.ref_time_corr); "
+                 "CSV files (%.8f / %.6f).  nematic: N in {3,4} x the same frame / cell classes for the position trajectory x neighbour lists {none, same per frame, none in "
+                 "frame 0 then ragged, ragged then none} x directors {k pi/8 table, exact axis directors and (0.6,0.8)} x rdelta in {0.25,0.2} x masks: spatial_corr = frame mean of "
+                 "the tensor-weighted pair histogram (trace of the product), time_corr = C14 tensor model; non-trivial = >= 2 populated bins and a non-constant field",
+            bounds={"N": [3, 4], "frames": [2, 3]}),
+        Sub("C17.firstframe", gen_firstframe, run_firstframe,
+            rule="L2: trajectories whose FIRST frame is of another class than the later ones.  S2: d in {2,3} x {orthogonal then tilted (two different tilts), tilted then "
+                 "orthogonal, orthogonal-tilted-orthogonal} at constant edge lengths x F in {2,3} x N in {3,4,5} x {clustered, dilute first frame then clustered, clustered then dilute} "
+                 "x bins x all masks with a periodic axis x K in {1, 2 with reversed labels in frame 1}" + (" (every third combination)" if tier == "quick" else "")
+                 + "; tetrahedral: the same cell sequences x N in {5,6,8} x " + ("2" if tier == "quick" else "6") + " placements x masks; nematic N=4: neighbour files whose first frame "
+                 "has no / one / all neighbours per particle and later frames are ragged (4 classes) x 8 x " + ("4" if tier == "quick" else "8") + " director tables x F in {2,3}; same "
+                 "oracles as C17.s2 / C17.tetra.formula / C17.nematic",
+            bounds={"cell_sequences": ["orth>tri", "tri>orth", "o>t>o"], "topology_classes": list(FF_TOPO4)}),
+        Sub("C17.unwrapped", gen_unwrapped, run_firstframe,
+            rule="L7: S2 (d in {2,3} x {orthogonal, triclinic} x N in {3,4,5} x {cluster, gas} x F in {1,2} x bins x masks with a periodic axis x K in {1,2}) and tetrahedral order "
+                 "(N in {5,6,8} x cells x masks x F in {1,2}, " + ("2" if tier == "quick" else "6") + " placements) with particles displaced by whole cell vectors n H, n in {0,+2,-3,+4} "
+                 "per particle and axis, zero on non-periodic axes (frame 0 of a two-frame input stays folded); oracle = the reference of the FOLDED input (C17.corr carries the same "
+                 "for the position trajectories of the correlation methods)",
+            bounds={"n": Y.UNWRAP_N}),
+        Sub("C17.forms", gen_forms, run_forms,
+            rule="L4 / L5 / L1: nematic N=3 with all 4^3 assignments of the EXACT axis directors (+-1,0),(0,+-1) (2 frames) stored as float64 / float32 / int64 / int32 / Fortran-"
+                 "ordered / strided x {no file with Nmax in {1,2} and a decoy position trajectory, two topologies}; exact non-axis unit vectors (0.6,0.8).. as float64 / float32 / F; "
+                 "S2 (d in {2,3}, orthogonal / triclinic, N in {3,4}, K in {1,2}) and tetrahedral (N in {5,7}) with positions Fortran-ordered / strided, species as int32 / float64, ppp "
+                 "as int32 / int8, widths as float32 (values exact in float32; tolerance 2e-6), a particle exactly at the cell origin / on a cell face; gyration of integer lattice "
+                 "subsets stored as int64 / int32 / float32",
+            bounds={"forms": ["float64", "float32", "int64", "int32", "F", "strided"]}),
+        Sub("C17.sequence", gen_sequence, run_sequence,
+            rule="L6 explicit-state search over CALL SEQUENCES: all words of length <= 2 over " + ("18" if tier == "quick" else "22 complete calls and all words of length 3 over a core of 12 (that "
+                 "return to a routine or stay within two routines)") + " complete calls (S2: same bin count / other "
+                 "width, same diagonal / tilted, 2D / 3D, other species, other content, the object queried for spatial_corr / time_corr, the object's position arrays edited in "
+                 "place between two particle_s2 calls, a second S2 object evaluated in between; tetrahedral: orthogonal / tilted / masked / other content; nematic: no file, the same "
+                 "file NAME with two contents, eigvals, other directors, tensor + spatial_corr + time_corr, a neighbour-averaged call on other directors under the SAME output prefix "
+                 "as the plain calls; gyration 2D / 3D; S2 / tetrahedral / nematic write their output files under fixed names that are left in place within a word), each word in a forked "
+                 "child with re-imported library modules; every call must return bit for bit what the same call returns when made first in a fresh child",
+            bounds={"depth": 2 if tier == "quick" else 3, "letters": len(SEQ_QUICK) if tier == "quick" else len(SEQ_LETTERS)}),
+        Sub("C17.dilation", gen_dilation, run_dilation,
+            rule="L9 absolute scale: all lengths multiplied by 2^-33 and 2^27 (exact).  S2 (d in {2,3} x {orthogonal, TILTED} x N in {3,4} x K in {1,2} x masks with a periodic "
+                 "axis x F in {1,2}; positions, cell, rdelta and Gaussian widths scaled: S2 is scale-free), q_tetrahedral (N in {5,6,8} x {orthogonal, tilted} x all masks x F in "
+                 "{1,2}: scale-free), gyration (Rg ~ s, asphericity and acylindricity ~ s^2, anisotropy ~ 1, fractal dimension = log N / log Rg): the library on the dilated input "
+                 "vs the library on the undilated input mapped through the power (1e-9 relative); the nematic tensor takes unit vectors only (no length enters)",
+            bounds={"scales": ["2^-33", "2^27"]}),
         Sub("C17.scale", gen_scale, run_scale,
             rule="SIZE slice (enumerates sizes, ONE fixed value pattern per size and pattern row).  S2: N in " + str(SC_N[tier]) + " x 5 rows {2D, 3D} x K in {1,2,3} (species-by-id "
                  "rotated per frame, same composition, one species with a single member) x cells {orthogonal with shortest edge y, triclinic of either sign, tilt changing per frame} x "
